@@ -1,5 +1,5 @@
 """Property -> rules registry."""
-from .rules import kernel, incr, rot, sched, meas, integrator, kal, purity, diff, sensor, layout, geo, errmodel, frames, simrules, dtype, idxdom
+from .rules import kernel, incr, rot, sched, meas, integrator, kal, purity, diff, sensor, layout, geo, errmodel, frames, simrules, dtype, idxdom, forms
 
 PROPS = {
     'C01': dict(
@@ -137,7 +137,7 @@ PROPS = {
         undecided=['exactness of scipy.linalg.expm', 'symmetry/PSD of the computed product in '
                    'floating point', 'composition over partitions (numerical)']),
     'C19': dict(
-        rules=[purity.pur_rules, purity.rng_src, purity.sch_rules, dtype.dtype_inherit],
+        rules=[purity.pur_rules, purity.rng_src, purity.sch_rules, dtype.dtype_inherit, forms.form_agree],
         decided=['no public callable writes into an argument, a constructor-argument field or a '
                  'shared constant (may-alias effect analysis with interprocedural summaries; '
                  'pandas-3 copy-on-write model)',
